@@ -29,6 +29,9 @@ type runtimeContextManager struct {
 
 	status RuntimeContextStatus
 
+	// The resource whose hard limit caused the context to be killed, if any.
+	killCause resourceKind
+
 	parent *runtimeContextManager
 
 	messageHandler Callable
@@ -45,6 +48,14 @@ type runtimeContextManager struct {
 }
 
 var _ RuntimeContext = (*runtimeContextManager)(nil)
+
+type resourceKind uint8
+
+const (
+	noResource resourceKind = iota
+	cpuResource
+	memResource
+)
 
 func (m *runtimeContextManager) initRoot() {
 	m.gcPolicy = IsolateGCPolicy
@@ -126,6 +137,7 @@ func (m *runtimeContextManager) PushContext(ctx RuntimeContextDef) {
 	m.trackCpu = m.hardLimits.Cpu > 0 || m.softLimits.Cpu > 0 || m.trackTime
 	m.trackMem = m.hardLimits.Memory > 0 || m.softLimits.Memory > 0
 	m.status = StatusLive
+	m.killCause = noResource
 	m.messageHandler = ctx.MessageHandler
 	m.parent = &parent
 	if ctx.GCPolicy == IsolateGCPolicy || ctx.HardLimits.Millis > 0 || ctx.HardLimits.Cpu > 0 || ctx.HardLimits.Memory > 0 {
@@ -155,6 +167,7 @@ func (m *runtimeContextManager) PopContext() RuntimeContext {
 		mCopy.status = StatusDone
 	}
 	verifCtx("popped", &mCopy, nil, 0, 0)
+	parentLeft := m.parent.hardLimits.Remove(m.parent.usedResources)
 	m.parent.RequireCPU(m.usedResources.Cpu)
 	m.parent.RequireMem(m.usedResources.Memory)
 	*m = *m.parent
@@ -162,6 +175,19 @@ func (m *runtimeContextManager) PopContext() RuntimeContext {
 		m.updateTimeUsed()
 	}
 	verifCtx("pop", m, nil, 0, 0)
+	// A context killed by a limit that it merely inherited from its parent
+	// (i.e. all that the parent had left) means the parent's own limit was
+	// reached: the request that did not fit must not be survivable by wrapping
+	// it in pcall or callcontext.
+	switch {
+	case mCopy.status != StatusKilled || m.status != StatusLive:
+	case mCopy.killCause == cpuResource && parentLeft.Cpu > 0 && mCopy.hardLimits.Cpu == parentLeft.Cpu:
+		m.killCause = cpuResource
+		m.TerminateContext("CPU limit of %d exceeded", m.hardLimits.Cpu)
+	case mCopy.killCause == memResource && parentLeft.Memory > 0 && mCopy.hardLimits.Memory == parentLeft.Memory:
+		m.killCause = memResource
+		m.TerminateContext("memory limit of %d exceeded", m.hardLimits.Memory)
+	}
 	return &mCopy
 }
 
@@ -189,6 +215,9 @@ func (m *runtimeContextManager) requireCPU(cpuAmount uint64) {
 	}
 	if atLimit(cpuUsed, m.hardLimits.Cpu) {
 		verifCtx("cpu.limit", m, nil, cpuAmount, 0)
+		if m.status == StatusLive {
+			m.killCause = cpuResource
+		}
 		m.TerminateContext("CPU limit of %d exceeded", m.hardLimits.Cpu)
 	}
 	if m.trackTime && m.nextCpuThreshold <= cpuUsed {
@@ -226,6 +255,9 @@ func (m *runtimeContextManager) requireMem(memAmount uint64) {
 	}
 	if atLimit(memUsed, m.hardLimits.Memory) {
 		verifCtx("mem.limit", m, nil, memAmount, 0)
+		if m.status == StatusLive {
+			m.killCause = memResource
+		}
 		m.TerminateContext("memory limit of %d exceeded", m.hardLimits.Memory)
 	}
 	m.usedResources.Memory = memUsed
